@@ -6,5 +6,5 @@ CONSTANTS
   Dev_h13 = TRUE
   Dev_ownerAbsent = TRUE
   Emit = FALSE
-INVARIANTS AuthUserSound AuthUserComplete AuthOwnerSound AuthOwnerComplete KeyAgreement NoKeyWithoutAuth Plaintext Shapes ImplDictRefines ImplKeyRefines ImplItemRefines ImplOpens EmitInv
+INVARIANTS AuthUserSound AuthUserComplete AuthOwnerSound AuthOwnerComplete KeyAgreement NoKeyWithoutAuth Plaintext Shapes ImplDictRefines ImplKeyRefines ImplItemRefines ImplOpens ImplRejects EmitInv
 CHECK_DEADLOCK FALSE
